@@ -38,6 +38,7 @@ class Fn:
         self.functions = dict(functions or {})      # module-level function name -> its single parameter name
         self.ext = set(ext)                          # names bound to callables the model knows nothing about
         self.harmless_props = set(harmless_props)    # side-effect free properties that may occur in messages
+        self.mixin_in_scope = True                   # the global name GenericMixin is the mixin class (checked by translate())
         self.locals = []
         self.comp = []                               # comprehension variables in scope
 
@@ -171,6 +172,19 @@ class Fn:
                      'zip': ('EZip', 2), 'dir': ('EDir', 1)}
             if name in plain and not kw and len(pos) == plain[name][1]:
                 return plain[name][0] + ' ' + ' '.join(f'({self.expr(a)})' for a in pos)
+            if name == 'isinstance' and not kw and len(pos) == 2 and is_name(pos[1], 'type'):
+                return f'EIsClass ({self.expr(pos[0])})'
+            if name == 'issubclass' and not kw and len(pos) == 2 and is_name(pos[1], 'GenericMixin') and self.mixin_in_scope:
+                return f'EUsesMixin ({self.expr(pos[0])})'
+            if name == 'isinstance' and not kw and len(pos) == 2 and is_name(pos[1], 'property'):
+                # isinstance(getattr(type(X), N, None), property): is N a property of the class of X
+                g = pos[0]
+                if (isinstance(g, ast.Call) and is_name(g.func, 'getattr') and not g.keywords and len(g.args) == 3
+                        and isinstance(g.args[2], ast.Constant) and g.args[2].value is None
+                        and isinstance(g.args[0], ast.Call) and is_name(g.args[0].func, 'type') and not g.args[0].keywords
+                        and len(g.args[0].args) == 1):
+                    return f'EClassAttrIsProperty ({self.expr(g.args[0].args[0])}) ({self.expr(g.args[1])})'
+                bad('isinstance(.., property) on something else than getattr(type(x), name, None)', n)
             if name == 'dict' and not kw and not pos:
                 return 'EDictNew'
             if name in EXN:
@@ -299,7 +313,7 @@ def translate():
     if not imports(tree_w, 'enum', 'StrEnum') or not imports(tree_w, 'abc', 'ABC'):
         bad('StrEnum / ABC imports changed')
     builtins_used = {'hasattr', 'getattr', 'setattr', 'len', 'list', 'zip', 'dir', 'dict', 'type', 'property', 'Generic',
-                     'AssertionError', 'GenericMixin', 'StrEnum', 'ABC'}
+                     'AssertionError', 'GenericMixin', 'StrEnum', 'ABC', 'isinstance', 'issubclass'}
     for tree in (tree_g, tree_w):
         for n in ast.walk(tree):
             if isinstance(n, (ast.Assign, ast.AnnAssign, ast.AugAssign)):
@@ -363,6 +377,20 @@ def translate():
         bad('signature or decorators of get_decorated_functions changed')
     fx = Fn(['self'], **mixin_ctx)
     out_defs.append(('get_decorated_functions', fx.fundef(gdf.body, False), provenance(REL_W, src_w, gdf)))
+
+    # repaired defects must not come back unnoticed: the guards of the fix: commits have to be there
+    def calls(node, fname, second):
+        return [c for c in ast.walk(node) if isinstance(c, ast.Call) and is_name(c.func, fname) and len(c.args) == 2
+                and is_name(c.args[1], second)]
+    loops = [n for n in ast.walk(members['_get_types']) if isinstance(n, ast.For)]
+    if len(loops) != 1 or not calls(loops[0], 'issubclass', 'GenericMixin'):
+        bad('_get_types takes the first parametrised base for the binding base without testing issubclass(base.__origin__, GenericMixin): '
+            'defect K-C20-builtin-alias-first / K-C20-foreign-generic-first (class S1(List[int], D[str]) raises AttributeError, '
+            'class S3(P[int], D[str]) reports the arguments of P)')
+    gloops = [n for n in gdf.body if isinstance(n, ast.For)]
+    if len(gloops) != 1 or not calls(gloops[0], 'isinstance', 'property'):
+        bad('get_decorated_functions reads every attribute without skipping properties (isinstance(getattr(type(self), name, None), property)): '
+            'defect K-C20-raising-property (a property whose getter raises makes get_decorated_functions raise)')
 
     cd = find_def(tree_w, 'create_decorator', UNIT)
     if cd not in tree_w.body or cd.decorator_list or not plain_args(cd, ['decorator_type', 'transformation'], defaults=1) \
